@@ -1292,10 +1292,12 @@ class ProcessPoolExecutor(Executor):
             self._pending_work_items[self._queue_count] = w
             self._work_ids.put(self._queue_count)
             self._queue_count += 1
-            # Wake up queue management thread
-            self._executor_manager_thread_wakeup.wakeup()
 
             self._ensure_executor_running()
+            # Wake up queue management thread, once the workers that idled out
+            # have been replaced: it only watches the sentinels of the workers
+            # that existed when it went to sleep.
+            self._executor_manager_thread_wakeup.wakeup()
             return f
 
     submit.__doc__ = Executor.submit.__doc__
